@@ -175,10 +175,11 @@ class VHDX(AlignedStream):
     def _read(self, offset: int, length: int) -> bytes:
         # The aligned stream may ask for a full buffer past the end of the disk
         length = min(length, self.size - offset)
-        sector = offset // self.sector_size
-        count = (length + self.sector_size - 1) // self.sector_size
+        # The stream alignment is not necessarily a multiple of the logical sector size (e.g. 4096 byte sectors)
+        sector, offset_in_sector = divmod(offset, self.sector_size)
+        count = (offset_in_sector + length + self.sector_size - 1) // self.sector_size
 
-        return self.read_sectors(sector, count)
+        return self.read_sectors(sector, count)[offset_in_sector : offset_in_sector + length]
 
 
 class RegionTable:
